@@ -295,7 +295,7 @@ class Ctx:
         """A concrete failing input on the real code. Matched against known findings by signature."""
         known = self.load_known()
         for k in known.get("findings", []):
-            if (k["property"] == self.prop or (self.prop == "ENG" and signature.startswith(k["property"] + ":"))) and k["signature"] == signature:
+            if (k["property"] == self.prop or (self.prop == "ENG" and (signature.startswith(k["property"] + ":") or k["property"] in ("C15",)))) and k["signature"] == signature:
                 if signature not in [x["signature"] for x in self.known]:
                     self.known.append({"signature": signature, "what": k.get("what", what)})
                 return False
